@@ -22,8 +22,8 @@ type caseT struct {
 }
 
 var intPool = []int64{0, 1, 2, 11, 12, 21, 22, 111, 112, -1, -11, 5}
-var binPool = []string{"a", "A", "ab", "b", "é", "è", "e", "ex", "ey", "1", "12", "2", "a1", "1a", "", "日本", "日"}
-var ciPool = []string{"a", "A", "b", "B", "ab", "AB", "aB", "1", "12", "a1", "A1"}
+var binPool = []string{"a", "A", "ab", "b", "é", "è", "e", "ex", "ey", "1", "12", "2", "a1", "1a", "", "日本", "日", "abcd", "abce", "日本x", "日本y"}
+var ciPool = []string{"a", "A", "b", "B", "ab", "AB", "aB", "1", "12", "a1", "A1", "abcd", "abce", "ABCE"}
 
 func genVal(r *lib.RNG, c Col) Val {
 	switch {
@@ -59,7 +59,7 @@ func genSchema(r *lib.RNG) Schema {
 		s.PK = append(s.PK, i)
 	}
 	s.Uniq = []Unique{}
-	if r.Chance(9, 20) {
+	if r.Chance(11, 20) {
 		u := Unique{Cols: []int{npk}, Prefix: []int{0}}
 		if n-npk >= 2 && r.Chance(1, 4) {
 			u = Unique{Cols: []int{npk, npk + 1}, Prefix: []int{0, 0}}
@@ -69,7 +69,17 @@ func genSchema(r *lib.RNG) Schema {
 				u.Prefix[j] = r.Range(1, 2)
 			}
 		}
-		s.Uniq = append(s.Uniq, u)
+		if r.Chance(2, 3) {
+			s.Uniq = append(s.Uniq, u)
+		} else {
+			// the same kind of index, but created later over the existing rows; prefix keys up to 3 characters
+			for j, c := range u.Cols {
+				if s.Cols[c].Str && r.Chance(1, 2) {
+					u.Prefix[j] = r.Range(1, 3)
+				}
+			}
+			s.Planned = &u
+		}
 	}
 	return s
 }
@@ -82,6 +92,11 @@ func genRow(r *lib.RNG, s Schema, have []Row) Row {
 			row[i] = NullV()
 		}
 	}
+	// bias: integer key pairs whose printed concatenations collide ("112": (1,12) / (11,2), ...)
+	if len(s.PK) == 2 && !s.Cols[0].Str && !s.Cols[1].Str && r.Chance(1, 4) {
+		p := lib.Pick(r, [][2]int64{{1, 12}, {11, 2}, {1, 11}, {11, 1}, {12, 1}, {1, 21}, {2, 11}, {21, 1}, {11, 12}, {111, 2}})
+		row[0], row[1] = IntV(p[0]), IntV(p[1])
+	}
 	// bias: reuse the key / the unique value of a row that was inserted earlier
 	if len(have) > 0 && r.Chance(1, 3) {
 		o := lib.Pick(r, have)
@@ -89,8 +104,8 @@ func genRow(r *lib.RNG, s Schema, have []Row) Row {
 			for _, p := range s.PK {
 				row[p] = o[p]
 			}
-		} else if len(s.Uniq) > 0 {
-			for _, c := range s.Uniq[0].Cols {
+		} else if u := s.anyUnique(); u != nil {
+			for _, c := range u.Cols {
 				row[c] = o[c]
 			}
 		}
@@ -110,6 +125,13 @@ func pickFilterCol(r *lib.RNG, s Schema) int {
 		return -1
 	}
 	return lib.Pick(r, ok)
+}
+
+func (s Schema) anyUnique() *Unique {
+	if len(s.Uniq) > 0 {
+		return &s.Uniq[0]
+	}
+	return s.Planned
 }
 
 func genPred(r *lib.RNG, s Schema, depth int) *Pred {
@@ -136,16 +158,24 @@ func genPred(r *lib.RNG, s Schema, depth int) *Pred {
 	return &Pred{Kind: "cmp", Col: c, Op: op, V: &v}
 }
 
-func genAssigns(r *lib.RNG, s Schema) []Assign {
+func genAssigns(r *lib.RNG, s Schema, have []Row) []Assign {
 	n := r.Range(1, 2)
 	var as []Assign
 	used := map[int]bool{}
 	for i := 0; i < n; i++ {
 		c := r.Intn(len(s.Cols))
+		if u := s.anyUnique(); u != nil && i == 0 && r.Chance(1, 3) {
+			c = lib.Pick(r, u.Cols)
+		}
 		if used[c] {
 			continue
 		}
 		used[c] = true
+		if len(have) > 0 && s.InUnique(c) && r.Chance(1, 2) {
+			// set a unique column to a value that another row holds
+			as = append(as, Assign{Col: c, V: lib.Pick(r, have)[c]})
+			continue
+		}
 		if !s.Cols[c].Str && r.Chance(3, 5) {
 			as = append(as, Assign{Col: c, Add: true, K: lib.Pick(r, []int64{1, -1, 10, 100, 1})})
 		} else {
@@ -180,6 +210,10 @@ func gen(r *lib.RNG) caseT {
 		if i == 0 {
 			k = 0
 		}
+		if s.Planned != nil && i >= 2 && r.Chance(1, 5) {
+			c.Stmts = append(c.Stmts, Stmt{Kind: "addunique", Index: s.Planned, Alter: r.Bool(), Limit: -1})
+			continue
+		}
 		switch {
 		case k < 5:
 			st.Kind = "insert"
@@ -203,10 +237,10 @@ func gen(r *lib.RNG) caseT {
 				have = append(have, row)
 			}
 			if st.Kind == "odku" {
-				st.Assign = genAssigns(r, s)
+				st.Assign = genAssigns(r, s, have)
 			}
 		case "update":
-			st.Assign = genAssigns(r, s)
+			st.Assign = genAssigns(r, s, have)
 			genTail(r, s, &st)
 		case "delete":
 			genTail(r, s, &st)
@@ -245,6 +279,22 @@ func candidates(s Schema, pre []Row, st Stmt) []Row {
 
 func classifyFalseDup(s Schema, pre []Row, st Stmt) string {
 	cs := candidates(s, pre, st)
+	if st.Kind == "addunique" {
+		// errIfDuplicateEntryExist hashes the j-th indexed value with the type of the j-th TABLE column: a binary string
+		// column indexed at position j is compared under table column j's case-insensitive collation
+		for j, ic := range st.Index.Cols {
+			if s.Cols[ic].Str && !s.Cols[ic].Ci && j < len(s.Cols) && s.Cols[j].Str && s.Cols[j].Ci {
+				for x := range pre {
+					for y := x + 1; y < len(pre); y++ {
+						a, b := pre[x][ic], pre[y][ic]
+						if !a.Null && !b.Null && a.S != b.S && foldCi(a.S) == foldCi(b.S) {
+							return "false-dup/index-build-compares-under-another-columns-collation"
+						}
+					}
+				}
+			}
+		}
+	}
 	if len(s.PK) >= 2 {
 		for i := range cs {
 			for j := i + 1; j < len(cs); j++ {
@@ -386,6 +436,13 @@ func byteUniqEq(u Unique, a, b Row) bool {
 
 var sigCount = map[string]int{}
 
+func actionCoq(st Stmt) string {
+	if st.Kind == "addunique" {
+		return st.Coq()
+	}
+	return "(ADml " + st.Coq() + ")"
+}
+
 func hasTies(s Schema, rows []Row) bool {
 	if len(s.PK) == 0 {
 		return false
@@ -413,6 +470,9 @@ func run(c *lib.Ctx, cs caseT) {
 	interesting := false
 	checked := 0
 	for _, st := range cs.Stmts {
+		if st.Kind == "addunique" && len(s.Uniq) > 0 {
+			continue // the index exists already (an earlier attempt succeeded); one unique index per table
+		}
 		q := st.SQL("t", s)
 		cs.SQL = append(cs.SQL, q)
 		res := se.Query(q)
@@ -446,7 +506,16 @@ func run(c *lib.Ctx, cs caseT) {
 			break
 		}
 		ordered := !hasTies(s, post)
-		steps = append(steps, lib.CoqTuple(st.Coq(), lib.CoqBool(succeeded), RowsCoq(post), lib.CoqBool(ordered)))
+		// the schema in effect after the statement (a unique index may just have been created over the existing rows)
+		sBefore, sAfter := s, s
+		if st.Kind == "addunique" {
+			sBefore = s.WithUnique(*st.Index) // what the statement has to respect
+			if succeeded {
+				sAfter = sBefore
+			}
+			c.Count(fmt.Sprintf("addunique_cols_%d_prefix_%v_succeeded_%v", len(st.Index.Cols), st.Index.Prefix[0] > 0, succeeded))
+		}
+		steps = append(steps, lib.CoqTuple(actionCoq(st), lib.CoqBool(succeeded), RowsCoq(post), lib.CoqBool(ordered)))
 		c.Count("stmt_" + st.Kind)
 		if !succeeded {
 			c.Count("rejected_" + st.Kind)
@@ -459,13 +528,13 @@ func run(c *lib.Ctx, cs caseT) {
 		} else {
 			checked++
 			ref := s.Ref(pre, st)
-			if i, j, w := s.DupPair(post); i >= 0 {
+			if i, j, w := sAfter.DupPair(post); i >= 0 {
 				interesting = true
-				fails = append(fails, pf{classifyMissedDup(s, pre, post, post[i], post[j], w, st),
+				fails = append(fails, pf{classifyMissedDup(sAfter, pre, post, post[i], post[j], w, st),
 					fmt.Sprintf("after %s (table %s) the stored rows %s and %s are equal in the %s key; before: %s", q, s.CreateSQL("t"), post[i].Text(), post[j].Text(), w, RowsText(pre))})
 			}
 			if !succeeded && !ref.Dup {
-				fails = append(fails, pf{classifyFalseDup(s, pre, st),
+				fails = append(fails, pf{classifyFalseDup(sBefore, pre, st),
 					fmt.Sprintf("%s (table %s, stored %s) was rejected: %v; but no two rows collide in a key", q, s.CreateSQL("t"), RowsText(pre), res.Err)})
 			}
 			if succeeded && ref.Dup {
@@ -488,14 +557,15 @@ func run(c *lib.Ctx, cs caseT) {
 			}
 		}
 		pre = post
+		s = sAfter
 	}
 	key := ""
 	if interesting {
 		key = strings.Join(cs.SQL, ";")
 	}
-	c.Count(fmt.Sprintf("pk_cols_%d", len(s.PK)))
-	c.Count(fmt.Sprintf("unique_indexes_%d", len(s.Uniq)))
-	term := lib.CoqTuple(s.Coq(), lib.CoqList(steps))
+	c.Count(fmt.Sprintf("pk_cols_%d", len(cs.Schema.PK)))
+	c.Count(fmt.Sprintf("unique_indexes_at_creation_%d", len(cs.Schema.Uniq)))
+	term := lib.CoqTuple(cs.Schema.Coq(), lib.CoqList(steps))
 	id := c.Case(term, cs, key)
 	for k := 0; k < checked || k < 1; k++ {
 		c.PredChecked()
@@ -560,6 +630,33 @@ func corpus() []caseT {
 				{Kind: "insert", Rows: []Row{iv(2, 3)}, Limit: -1},
 				{Kind: "delete", Where: &Pred{Kind: "cmp", Col: 1, Op: "=", V: v(IntV(1))}, Limit: 1},
 				{Kind: "update", Assign: []Assign{{Col: 0, V: IntV(2)}}, Where: &Pred{Kind: "cmp", Col: 1, Op: "=", V: v(IntV(1))}, Limit: -1}}},
+		// (a) composite key + unique index, stored rows whose printed keys collide, UPDATE to another row's unique value
+		{Schema: Schema{Cols: ints(3), PK: []int{0, 1}, Uniq: []Unique{{Cols: []int{2}, Prefix: []int{0}}}},
+			Stmts: []Stmt{{Kind: "insert", Rows: []Row{iv(1, 12, 5)}, Limit: -1}, {Kind: "insert", Rows: []Row{iv(11, 2, 6)}, Limit: -1},
+				{Kind: "update", Assign: []Assign{{Col: 2, V: IntV(6)}}, Where: &Pred{Kind: "cmp", Col: 0, Op: "=", V: v(IntV(1))}, Limit: -1},
+				{Kind: "update", Assign: []Assign{{Col: 2, V: IntV(5)}}, Where: &Pred{Kind: "cmp", Col: 0, Op: "=", V: v(IntV(11))}, Limit: -1},
+				{Kind: "update", Assign: []Assign{{Col: 2, V: IntV(7)}}, Where: &Pred{Kind: "cmp", Col: 0, Op: "=", V: v(IntV(11))}, Limit: -1}}},
+		// (b) unique index created over existing rows: prefix and full value, CREATE and ALTER, keyed and keyless
+		{Schema: Schema{Cols: []Col{{}, {Str: true}}, PK: []int{0}, Uniq: []Unique{}, Planned: &Unique{Cols: []int{1}, Prefix: []int{3}}},
+			Stmts: []Stmt{{Kind: "insert", Rows: []Row{{IntV(1), StrV("abcd")}, {IntV(2), StrV("abce")}, {IntV(3), NullV()}, {IntV(4), NullV()}}, Limit: -1},
+				{Kind: "addunique", Index: &Unique{Cols: []int{1}, Prefix: []int{3}}, Limit: -1},
+				{Kind: "addunique", Index: &Unique{Cols: []int{1}, Prefix: []int{3}}, Alter: true, Limit: -1},
+				{Kind: "delete", Where: &Pred{Kind: "cmp", Col: 0, Op: "=", V: v(IntV(2))}, Limit: -1},
+				{Kind: "addunique", Index: &Unique{Cols: []int{1}, Prefix: []int{3}}, Alter: true, Limit: -1},
+				{Kind: "insert", Rows: []Row{{IntV(5), StrV("abcf")}}, Limit: -1}, {Kind: "insert", Rows: []Row{{IntV(6), StrV("abd")}}, Limit: -1}}},
+		{Schema: Schema{Cols: []Col{{}, {Str: true}}, PK: []int{}, Uniq: []Unique{}, Planned: &Unique{Cols: []int{1}, Prefix: []int{0}}},
+			Stmts: []Stmt{{Kind: "insert", Rows: []Row{{IntV(1), StrV("abcd")}, {IntV(2), StrV("abcd")}}, Limit: -1},
+				{Kind: "addunique", Index: &Unique{Cols: []int{1}, Prefix: []int{0}}, Limit: -1},
+				{Kind: "update", Assign: []Assign{{Col: 1, V: StrV("abce")}}, Where: &Pred{Kind: "cmp", Col: 0, Op: "=", V: v(IntV(2))}, Limit: -1},
+				{Kind: "addunique", Index: &Unique{Cols: []int{1}, Prefix: []int{0}}, Limit: -1},
+				{Kind: "insert", Rows: []Row{{IntV(3), StrV("abce")}}, Limit: -1}}},
+		{Schema: Schema{Cols: ints(3), PK: []int{0, 1}, Uniq: []Unique{}, Planned: &Unique{Cols: []int{2}, Prefix: []int{0}}},
+			Stmts: []Stmt{{Kind: "insert", Rows: []Row{iv(1, 12, 5)}, Limit: -1}, {Kind: "insert", Rows: []Row{iv(11, 2, 6)}, Limit: -1},
+				{Kind: "addunique", Index: &Unique{Cols: []int{2}, Prefix: []int{0}}, Limit: -1}}},
+		// index built on a binary column while the table's first column is case-insensitive
+		{Schema: Schema{Cols: []Col{{Str: true, Ci: true}, {Str: true}}, PK: []int{}, Uniq: []Unique{}, Planned: &Unique{Cols: []int{1}, Prefix: []int{0}}},
+			Stmts: []Stmt{{Kind: "insert", Rows: []Row{{StrV("b"), StrV("a")}, {StrV("B"), StrV("A")}}, Limit: -1},
+				{Kind: "addunique", Index: &Unique{Cols: []int{1}, Prefix: []int{0}}, Limit: -1}}},
 		// order-dependent key shifts
 		{Schema: Schema{Cols: ints(2), PK: []int{0}, Uniq: []Unique{}},
 			Stmts: []Stmt{{Kind: "insert", Rows: []Row{iv(1, 0), iv(2, 0), iv(3, 0)}, Limit: -1},
